@@ -11,6 +11,11 @@ pub trait Build: Sized { fn build(j: &J) -> Self; }
 fn unhex_s(j: &J) -> String { String::from_utf8(unhex(j["s"].as_str().unwrap())).unwrap() }
 macro_rules! bint { ($($t:ty),*) => {$( impl Build for $t { fn build(j: &J) -> Self { j["i"].as_str().unwrap().parse().unwrap() } } )*} }
 bint!(u8, u16, u32, u64, i8, i16, i32, i64);
+// floats by their bit patterns (never compared as numbers on the Python side)
+impl Build for f64 { fn build(j: &J) -> Self { f64::from_bits(u64::from_str_radix(j["fbits"].as_str().unwrap(), 16).unwrap()) } }
+impl Build for f32 { fn build(j: &J) -> Self { f32::from_bits(u32::from_str_radix(j["fbits"].as_str().unwrap(), 16).unwrap()) } }
+impl Canon for f64 { fn canon(&self) -> J { json!({"fbits": format!("{:016x}", self.to_bits())}) } }
+impl Canon for f32 { fn canon(&self) -> J { json!({"fbits": format!("{:08x}", self.to_bits())}) } }
 impl Build for bool { fn build(j: &J) -> Self { j["b"].as_bool().unwrap() } }
 impl Build for char { fn build(j: &J) -> Self { char::from_u32(j["c"].as_u64().unwrap() as u32).unwrap() } }
 impl Build for String { fn build(j: &J) -> Self { unhex_s(j) } }
@@ -58,6 +63,7 @@ st!(S6 { c: char, i: i8 });
 st!(S7 { u: (), n: N });
 st!(S8 { #[serde(default)] d: u32, x: String });
 st!(S9 { w: Vec<Option<u16>>, z: i64 });
+st!(S12 { f: f64, g: f32, o: Option<f64>, v: Vec<f32> });
 st!(S11 { m: E2, o: Option<E2>, v: Vec<E2> });
 st!(S10 { h: u64, g: i16, k: i32, l: Option<u64>, m: Vec<u64> });   // with S0-S9: every integer width the codec has a method for
 
@@ -113,7 +119,7 @@ pub fn run_case(c: &J) -> J {
         let v = c["value"].clone();
         return match tid {
             0 => ser::<S0>(&v), 1 => ser::<S1>(&v), 2 => ser2(&v), 3 => ser::<S3>(&v), 4 => ser::<S4>(&v),
-            5 => ser::<BTreeMap<String, String>>(&v), 6 => ser::<S6>(&v), 7 => ser::<S7>(&v), 8 => ser::<S8>(&v), 9 => ser::<S9>(&v), 10 => ser::<S10>(&v), 11 => ser::<S11>(&v),
+            5 => ser::<BTreeMap<String, String>>(&v), 6 => ser::<S6>(&v), 7 => ser::<S7>(&v), 8 => ser::<S8>(&v), 9 => ser::<S9>(&v), 10 => ser::<S10>(&v), 11 => ser::<S11>(&v), 12 => ser::<S12>(&v),
             _ => json!({"outcome": "bad-tid"}),
         }
     }
@@ -121,7 +127,7 @@ pub fn run_case(c: &J) -> J {
     match tid {
         0 => run::<S0>(&input), 1 => run::<S1>(&input), 2 => run::<S2>(&input), 3 => run::<S3>(&input),
         4 => run::<S4>(&input), 5 => run::<BTreeMap<String, String>>(&input), 6 => run::<S6>(&input),
-        7 => run::<S7>(&input), 8 => run::<S8>(&input), 9 => run::<S9>(&input), 10 => run::<S10>(&input), 11 => run::<S11>(&input),
+        7 => run::<S7>(&input), 8 => run::<S8>(&input), 9 => run::<S9>(&input), 10 => run::<S10>(&input), 11 => run::<S11>(&input), 12 => run::<S12>(&input),
         _ => json!({"outcome": "bad-tid"}),
     }
 }
